@@ -1,9 +1,297 @@
 package main
 
 import (
+	"fmt"
 	"go/ast"
+	"go/token"
 	"strings"
 )
+
+// ---- a small translator of Go conditions into Lean `Bool` functions (own to C17) -------------------------------------
+//
+// c17Conds emits, for every `if` of a function (source order, closures entered), `def <prefix><i> (atoms…) : Bool`.
+// Operators && || ! < <= > >= == != and integer literals are translated; every other sub-expression (identifier,
+// selector, call) is an ATOM and becomes a parameter: `Int` when it is compared, `Bool` when it is used as a truth
+// value; `x == nil` / `x != nil` become the Bool atom `x_isNil` (negated for !=).  Parameters are ordered by first
+// occurrence.  The Tie theorems then prove these functions equal to the model's decisions FOR ALL ARGUMENTS.
+type c17CondCtx struct {
+	s     *source
+	names []string
+	types map[string]string
+	bad   []string
+}
+
+func c17Ident(src string) string {
+	var b strings.Builder
+	last := byte('_')
+	for i := 0; i < len(src); i++ {
+		c := src[i]
+		ok := (c >= 'a' && c <= 'z') || (c >= 'A' && c <= 'Z') || (c >= '0' && c <= '9')
+		if ok {
+			b.WriteByte(c)
+			last = c
+		} else if last != '_' {
+			b.WriteByte('_')
+			last = '_'
+		}
+	}
+	out := strings.Trim(b.String(), "_")
+	if out == "" || (out[0] >= '0' && out[0] <= '9') {
+		out = "a_" + out
+	}
+	return out
+}
+
+func (c *c17CondCtx) atom(e ast.Expr, ty string, suffix string) string {
+	name := c17Ident(c.s.src(e)) + suffix
+	if old, ok := c.types[name]; ok {
+		if old != ty {
+			c.bad = append(c.bad, "atom "+name+" used as "+old+" and "+ty)
+		}
+		return name
+	}
+	c.types[name] = ty
+	c.names = append(c.names, name)
+	return name
+}
+
+func isNilIdent(e ast.Expr) bool {
+	id, ok := e.(*ast.Ident)
+	return ok && id.Name == "nil"
+}
+
+func (c *c17CondCtx) intExpr(e ast.Expr) string {
+	switch x := e.(type) {
+	case *ast.ParenExpr:
+		return c.intExpr(x.X)
+	case *ast.BasicLit:
+		if x.Kind == token.INT {
+			return "(" + x.Value + " : Int)"
+		}
+	}
+	return c.atom(e, "Int", "")
+}
+
+func (c *c17CondCtx) boolExpr(e ast.Expr) string {
+	switch x := e.(type) {
+	case *ast.ParenExpr:
+		return "(" + c.boolExpr(x.X) + ")"
+	case *ast.UnaryExpr:
+		if x.Op == token.NOT {
+			return "(!" + c.boolExpr(x.X) + ")"
+		}
+	case *ast.BinaryExpr:
+		switch x.Op {
+		case token.LAND:
+			return "(" + c.boolExpr(x.X) + " && " + c.boolExpr(x.Y) + ")"
+		case token.LOR:
+			return "(" + c.boolExpr(x.X) + " || " + c.boolExpr(x.Y) + ")"
+		case token.EQL, token.NEQ:
+			var inner string
+			switch {
+			case isNilIdent(x.Y):
+				inner = c.atom(x.X, "Bool", "_isNil")
+			case isNilIdent(x.X):
+				inner = c.atom(x.Y, "Bool", "_isNil")
+			default:
+				inner = "decide (" + c.intExpr(x.X) + " = " + c.intExpr(x.Y) + ")"
+			}
+			if x.Op == token.NEQ {
+				return "(!" + inner + ")"
+			}
+			return inner
+		case token.LSS:
+			return "decide (" + c.intExpr(x.X) + " < " + c.intExpr(x.Y) + ")"
+		case token.LEQ:
+			return "decide (" + c.intExpr(x.X) + " ≤ " + c.intExpr(x.Y) + ")"
+		case token.GTR:
+			return "decide (" + c.intExpr(x.X) + " > " + c.intExpr(x.Y) + ")"
+		case token.GEQ:
+			return "decide (" + c.intExpr(x.X) + " ≥ " + c.intExpr(x.Y) + ")"
+		}
+	}
+	return c.atom(e, "Bool", "")
+}
+
+func c17Conds(s *source, e *emitter, rel, goName, prefix string) {
+	fd := s.findFunc(rel, goName)
+	if fd == nil {
+		e.errors = append(e.errors, "function "+goName+" not found in "+rel)
+		return
+	}
+	i := 0
+	ast.Inspect(fd.Body, func(n ast.Node) bool {
+		st, ok := n.(*ast.IfStmt)
+		if !ok {
+			return true
+		}
+		ctx := &c17CondCtx{s: s, types: map[string]string{}}
+		body := ctx.boolExpr(st.Cond)
+		for _, b := range ctx.bad {
+			e.errors = append(e.errors, goName+": "+b)
+		}
+		var params strings.Builder
+		for _, nm := range ctx.names {
+			fmt.Fprintf(&params, " (%s : %s)", nm, ctx.types[nm])
+		}
+		e.printf("/-- condition %d of `%s` in %s: `if %s` -/\ndef %s%d%s : Bool := %s\n\n", i, goName, rel,
+			strings.ReplaceAll(s.src(st.Cond), "-/", "- /"), prefix, i, params.String(), body)
+		i++
+		return true
+	})
+	e.printf("def %sCount : Nat := %d\n\n", prefix, i)
+}
+
+// c17AllocSites: for the first `range` loop of a function, every call `SetMapIndexValue(…, X)` / `….SetMapIndex(k, X)`
+// with the origin of the cell X refers to: "loop <name> := <init>" when the root identifier of X is declared (`:=`)
+// inside the loop body — a fresh cell per iteration — else "outer <name>" (a cell shared by all iterations).
+func c17AllocSites(s *source, e *emitter, rel, goName, leanName string) {
+	fd := s.findFunc(rel, goName)
+	var items []string
+	if fd == nil {
+		e.errors = append(e.errors, "function "+goName+" not found in "+rel)
+		e.stringList(leanName, "MISSING", []string{"MISSING"})
+		return
+	}
+	var loop *ast.RangeStmt
+	ast.Inspect(fd.Body, func(n ast.Node) bool {
+		if r, ok := n.(*ast.RangeStmt); ok && loop == nil {
+			loop = r
+			return false
+		}
+		return loop == nil
+	})
+	if loop == nil {
+		e.errors = append(e.errors, goName+": no range loop")
+		e.stringList(leanName, "MISSING", []string{"MISSING"})
+		return
+	}
+	root := func(x ast.Expr) string {
+		for {
+			switch y := x.(type) {
+			case *ast.CallExpr:
+				x = y.Fun
+			case *ast.SelectorExpr:
+				x = y.X
+			case *ast.ParenExpr:
+				x = y.X
+			case *ast.Ident:
+				return y.Name
+			default:
+				return "?"
+			}
+		}
+	}
+	// declarations are looked up in the innermost enclosing block first: walk with a scope stack
+	var walk func(n ast.Node, scope map[string]string)
+	walk = func(n ast.Node, scope map[string]string) {
+		switch x := n.(type) {
+		case *ast.BlockStmt:
+			inner := map[string]string{}
+			for k, v := range scope {
+				inner[k] = v
+			}
+			for _, st := range x.List {
+				walk(st, inner)
+			}
+			return
+		case *ast.CaseClause:
+			inner := map[string]string{}
+			for k, v := range scope {
+				inner[k] = v
+			}
+			for _, st := range x.Body {
+				walk(st, inner)
+			}
+			return
+		case *ast.AssignStmt:
+			for _, r := range x.Rhs {
+				walk(r, scope)
+			}
+			if x.Tok == token.DEFINE {
+				for i, l := range x.Lhs {
+					if id, ok := l.(*ast.Ident); ok && i < len(x.Rhs) {
+						scope[id.Name] = s.src(x.Rhs[i])
+					} else if ok {
+						scope[id.Name] = s.src(x.Rhs[0])
+					}
+				}
+			}
+			return
+		case *ast.CallExpr:
+			fn := s.src(x.Fun)
+			if (fn == "SetMapIndexValue" || strings.HasSuffix(fn, ".SetMapIndex")) && len(x.Args) > 0 {
+				last := x.Args[len(x.Args)-1]
+				r := root(last)
+				if init, ok := scope[r]; ok {
+					items = append(items, fn+" "+s.src(last)+" <- loop "+r+" := "+init)
+				} else {
+					items = append(items, fn+" "+s.src(last)+" <- outer "+r)
+				}
+			}
+		}
+		ast.Inspect(n, func(m ast.Node) bool {
+			if m == n || m == nil {
+				return true
+			}
+			walk(m, scope)
+			return false
+		})
+	}
+	walk(loop.Body, map[string]string{})
+	e.stringList(leanName, "where the cell stored under each key by `"+goName+"` is allocated", items)
+}
+
+// c17Decls: the local `var` declarations of a function ("var opt options" / "var x T = init") and c17PkgVars: the
+// package-level variables of a file with their initialisers — state that persists between calls shows up here.
+func c17Decls(s *source, e *emitter, rel, goName, leanName string) {
+	fd := s.findFunc(rel, goName)
+	var items []string
+	if fd == nil {
+		e.errors = append(e.errors, "function "+goName+" not found in "+rel)
+	} else {
+		ast.Inspect(fd.Body, func(n ast.Node) bool {
+			if d, ok := n.(*ast.DeclStmt); ok {
+				items = append(items, strings.Join(strings.Fields(s.src(d)), " "))
+			}
+			return true
+		})
+	}
+	e.stringList(leanName, "local var declarations of `"+goName+"` in "+rel, items)
+}
+
+func c17PkgVars(s *source, e *emitter, rel, leanName string) {
+	f := s.file(rel)
+	var items []string
+	if f == nil {
+		e.errors = append(e.errors, "file "+rel+" not found")
+	} else {
+		for _, d := range f.Decls {
+			gd, ok := d.(*ast.GenDecl)
+			if !ok || gd.Tok != token.VAR {
+				continue
+			}
+			for _, sp := range gd.Specs {
+				vs := sp.(*ast.ValueSpec)
+				for i, id := range vs.Names {
+					it := id.Name
+					if vs.Type != nil {
+						it += " : " + s.src(vs.Type)
+					}
+					if i < len(vs.Values) {
+						v := strings.Join(strings.Fields(s.src(vs.Values[i])), " ")
+						if len(v) > 60 {
+							v = v[:60]
+						}
+						it += " = " + v
+					}
+					items = append(items, it)
+				}
+			}
+		}
+	}
+	e.stringList(leanName, "package-level variables of "+rel, items)
+}
 
 // c17SwitchCases lists, for the first (type) switch statement of a function, every case as
 // "<case expressions> -> <first statement of the body>" (whitespace normalised).
@@ -192,5 +480,30 @@ func init() {
 		c17Detail(s, e, ef, "convertNumberToJsonNumber", "eConvertNumber")
 		c17Detail(s, e, ef, "convertSlice", "eConvertSlice")
 		c17Detail(s, e, ef, "encodeToJSON", "eEncodeToJSON")
+		// round 4: allocation sites, state between calls, per-element functions, decisions translated to Lean
+		c17AllocSites(s, e, mf, "Unmarshaler.generateMap", "genMapAlloc")
+		c17Detail(s, e, mf, "Unmarshaler.fillSlice", "mFillSlice")
+		c17Detail(s, e, mf, "Unmarshaler.fillSliceValue", "mFillSliceValue")
+		c17Detail(s, e, mf, "Unmarshaler.fillStructElement", "mFillStructElement")
+		c17Detail(s, e, uf, "convertTypeOfPtr", "uConvertTypeOfPtr")
+		c17Detail(s, e, uf, "SetMapIndexValue", "uSetMapIndexValue")
+		c17Detail(s, e, uf, "SetValue", "uSetValue")
+		c17Decls(s, e, cf, "Load", "cLoadDecls")
+		c17PkgVars(s, e, cf, "cPkgVars")
+		c17PkgVars(s, e, "core/conf/options.go", "cOptionsPkgVars")
+		c17PkgVars(s, e, jf, "mJsonPkgVars")
+		c17PkgVars(s, e, xf, "xPkgVars")
+		c17PkgVars(s, e, ef, "ePkgVars")
+		c17Conds(s, e, uf, "validateNumberRange", "rangeCond")
+		c17Conds(s, e, jf, "getJsonUnmarshaler", "getUnmCond")
+		c17Conds(s, e, cf, "Load", "loadCond")
+		c17Conds(s, e, mf, "Unmarshaler.fillSlice", "fillSliceCond")
+		c17Conds(s, e, mf, "Unmarshaler.generateMap", "genMapCond")
+		c17Conds(s, e, cf, "toLowerCaseKeyMap", "lowerMapCond")
+		c17Conds(s, e, cf, "LoadFromJsonBytes", "loadJsonCond")
+		c17Detail(s, e, cf, "getTagName", "cGetTagName")
+		c17Detail(s, e, cf, "LoadConfigFromJsonBytes", "cLoadConfigJson")
+		c17Detail(s, e, cf, "LoadConfigFromYamlBytes", "cLoadConfigYaml")
+		c17Conds(s, e, cf, "getTagName", "tagNameCond")
 	})
 }
